@@ -109,6 +109,49 @@ pub fn run(tier: &str, seed: u64) -> (Vec<String>, SeqStats) {
         }
     }
 
+    // (b2) the overfull-bin rule: colliding keys make a table grow only while it is shorter than
+    // 64 bins (and only once a bin holds 8 entries); from 64 bins on a crowded bin becomes a tree
+    // and the length stays (unless the count reaches three quarters)
+    for &cap in &[1u32, 5, 10, 11, 21, 22, 32, 42, 43, 64, 85, 100, 171, 300] {
+        for fillers in [0u32, 3, 9] {
+            let m = PMap::with_capacity_and_hasher(cap as usize, h);
+            let g = m.guard();
+            // fillers in bins 2, 3, ... (collision-free for every length used here)
+            for f in 0..fillers {
+                m.insert(k(2 + f), 0, &g);
+            }
+            let mut in_bin = 0usize;
+            for i in 0..14u32 {
+                let before = m.verif_table_len();
+                // bin 1 of every table of at most 4096 bins
+                m.insert(k(1 + i * 4096), 0, &g);
+                in_bin += 1;
+                let after = m.verif_table_len();
+                st.steps += 1;
+                st.max_table = st.max_table.max(after as u64);
+                if before == 0 || after == before {
+                    continue;
+                }
+                st.growths_seen += 1;
+                let count = (fillers + i + 1) as usize;
+                let by_count = count >= before - (before >> 2);
+                // after a growth the colliding keys stay together (same low 12 bits)
+                let by_overfull_bin = before < 64 && in_bin >= 8;
+                if !by_count && !by_overfull_bin {
+                    viol.push(format!(
+                        "with_capacity({}) + {} fillers: the table grew from {} to {} bins at the {}-th key of one bin, with {} entries in all (neither three quarters of {} nor an overfull bin in a table shorter than 64)",
+                        cap, fillers, before, after, in_bin, count, before
+                    ));
+                    break;
+                }
+            }
+            st.sequences += 1;
+        }
+        if viol.len() > 5 {
+            break;
+        }
+    }
+
     // (c) seeded sequences against the capacity model (collision-free keys)
     let nseq = if thorough { 30_000 } else { 4_000 };
     for s in 0..nseq {
